@@ -4,4 +4,4 @@ From PV Require Import Lib.Base Lib.Utf8 Syntax.RGrammar Syntax.Code Model.PStat
 Require Import ExtrOcamlBasic.
 Extraction Language OCaml.
 Set Extraction KeepSingleton.
-Extraction "model.ml" pos_of parse env_of_blocks decode perr_string init_state faithful repaired rparse blocks_of_log relevant_terms far_pos far_expected.
+Extraction "model.ml" rd pos_of parse env_of_blocks decode perr_string init_state faithful repaired rparse blocks_of_log relevant_terms far_pos far_expected.
